@@ -656,7 +656,9 @@ func (c *HostClient) doNonNilReqResp(req *protocol.Request, resp *protocol.Respo
 		err = reqI.ProxyWrite(req, zw)
 	}
 	if resetConnection {
-		req.Header.ResetConnectionClose()
+		// take back the flag set above; the Connection fields the caller has set
+		// itself stay (ResetConnectionClose would delete them all)
+		req.Header.SetConnectionClose(false)
 	}
 
 	if err == nil {
